@@ -36,9 +36,23 @@ impl Prop for C14P {
             v.push(format!("{} from", r.enc()));
             v.push(format!("{} within", r.enc()));
         }
+        for (c, r) in crate::engine::util::shapes(3) {
+            v.push(format!("zst {}x{} x", c, r));
+        }
         v
     }
     fn run_unit(&self, unit: &str, ctx: &mut Ctx) {
+        if let Some(rest) = unit.strip_prefix("zst ") {
+            let dims = rest.split(' ').next().unwrap();
+            let (c, r) = dims.split_once('x').unwrap();
+            let (c, r): (usize, usize) = (c.parse().unwrap(), r.parse().unwrap());
+            let ops: Vec<Op> = super::ops::ops_for(c, r, 3)
+                .into_iter()
+                .filter(|o| matches!(o, Op::CopyFromSlice(..) | Op::CloneFromSlice(..) | Op::CopyFromToodee(..) | Op::CloneFromToodee(..) | Op::CopyWithin(..)))
+                .collect();
+            super::ops::zst_panic_differential(c, r, &ops, ctx);
+            return;
+        }
         let (r, what) = unit.rsplit_once(' ').unwrap();
         let rd = Recv::parse(r);
         if what == "from" {
@@ -52,7 +66,7 @@ impl Prop for C14P {
          copy_from_slice / clone_from_slice from slices of every length 0..=N^2+1: length == area => the destination holds the slice in row-major order and nothing else changed, otherwise panic and nothing changed. \
          copy_from_toodee / clone_from_toodee from owned, strided-view and view_mut sources of every shape: equal size => copied, different size (e.g. (2,3) vs (3,2)) => panic. \
          copy_within for every source rectangle with corners in 0..=dim+1 and every destination corner in (0..=dim+1)^2 plus huge components: fits => the destination rectangle equals the source rectangle's PRIOR contents (model copies through a temporary; every overlap direction and the identical placement occur) and all other cells, including the parent outside a window, are unchanged; does not fit or corners reversed => panic and nothing changed. \
-         A case is (destination, operation, arguments); non-trivial = accepted call on a non-empty destination; distinct by the tuple."
+         Arrays and windows of the zero-sized () must accept and reject exactly the same arguments as arrays of ordinary elements. A case is (destination, operation, arguments); non-trivial = accepted call on a non-empty destination; distinct by the tuple."
             .into()
     }
     fn bound(&self, tier: Tier) -> String {
